@@ -339,6 +339,11 @@ def forward_substitute(stmts: List[ast.stmt], T: Translator, stop_at: Optional[a
                 for e, v in zip(t.elts, vals):
                     if isinstance(e, ast.Name):
                         T.env[e.id] = v
+            elif isinstance(t, (ast.Tuple, ast.List)):
+                v = T.tr(st.value)
+                for i, e in enumerate(t.elts):
+                    if isinstance(e, ast.Name):
+                        T.env[e.id] = sp.Function("item")(v, sp.Integer(i))
             elif isinstance(t, (ast.Attribute, ast.Subscript)):
                 T.env[unparse(t)] = T.tr(st.value)
         elif isinstance(st, ast.AugAssign):
